@@ -10,7 +10,11 @@ set an error / delayed completion).  All decoding of wire bytes is done by vf/re
                      (already delivered) used; a present response has the request's id
   reply.matches      every message written to the client decodes strictly and has the id and question section of a query that
                      client had sent before (delivery bookkeeping from the driver log and the known stream layout)
-  reply.forwarded    a reply carrying an upstream answer is, message for message, one the upstream sent
+  reply.forwarded    a reply carrying an upstream answer is, message for message, one the upstream sent (each copy the upstream
+                     sent accounts for at most one copy delivered to the client)
+  bulk.*             large-volume TCP cases (a few per worker): 100-300 pipelined queries and their replies, 70-260 KiB per direction,
+                     incl. messages of exactly 65535 octets, delivered whole / in 65535..65538-octet / 16384 / 997-octet segments:
+                     every query reaches a dns_request hook in order, every query gets exactly its upstream reply, nothing is closed
   servfail           every other reply is a synthesised SERVFAIL: QR=1, RCODE=2, same id / opcode / RD / question as a delivered
                      query, and one dns_error hook with that id exists per such reply (and vice versa while the client is open)
   extract.client     sequence of requests seen by dns_request hooks == sequence of queries completely delivered (by the harness's
@@ -34,21 +38,24 @@ ENGINE = "sansio"
 TECHNIQUE = "runtime monitoring of hooks and client-side wire bytes of the real DNS layer under scripted upstream anomalies and TCP segmentations"
 BUDGET = {"quick": (4000, 16), "thorough": (150_000, 200)}
 WORKERS = {"quick": 2, "thorough": 16}
-REQUIRED = ["hook.request", "unsolicited.silent", "coalesced.unsolicited_after_solicited", "reply.matches", "reply.forwarded", "servfail", "extract.client", "extract.upstream", "malformed.closes",
+REQUIRED = ["bulk.cases", "bulk.segment_ge_65535", "bulk.replies_checked", "hook.request", "unsolicited.silent", "coalesced.unsolicited_after_solicited", "reply.matches", "reply.forwarded", "servfail", "extract.client", "extract.upstream", "malformed.closes",
             "plan.unsolicited", "plan.dup_id", "plan.connect_refused", "plan.addon_response", "plan.addon_error", "seg.bytes", "seg.split"]
 RULE = (
     "case = (transport, 1-8 queries with ids drawn with repetition, optional malformed element [TCP zero length prefix, undecodable "
     "frame/datagram, truncated tail] or early client EOF, TCP segmentation whole / every byte / random cuts / one split point for client and "
     "upstream streams (all replies produced for one write of the proxy travel as one chunk, so segments carry several replies; 30% of TCP cases batch every reply into one chunk), per-query upstream script [reply, duplicate, second copy of an older reply, hold-and-reorder, unsolicited id before/after/ahead of its query, none, "
     "close, malformed], refused connect number, addon action per query [pass, set response, set error, delay], schedule random/fifo); "
-    "distinct = (transport, segmentation kinds, sorted anomaly kinds exercised, outcome classes, min(#queries,3)); non-trivial = at least two "
+    "plus a few large-volume TCP cases per worker (first four case indices and every 3000th: 100-300 pipelined queries with EDNS padding and "
+    "their TXT replies, 70-260 KiB per direction, messages of exactly 65535 octets, client and upstream streams in segments of 65535 / whole / "
+    "65536 / 65537 / 65538 / 16384 / 997 octets or random cuts); distinct = (transport, segmentation kinds, sorted anomaly kinds exercised, outcome classes, min(#queries,3)); non-trivial = at least two "
     "queries or an anomaly in the script"
 )
 ASSUMPTIONS = [
     "a reply 'answers a query that client sent' iff a query with the same id and question section was delivered to the layer before the reply "
-    "was written (duplicate upstream replies and replies to an id the client reuses are therefore accepted; replays of a stored response for a "
-    "reused id are only counted as observed.stale_response_replayed)",
+    "was written (duplicate upstream replies and replies to an id the client reuses are therefore accepted as far as this clause goes)",
     "an upstream that answers an outstanding id with another question is outside the workload (the proxy is transparent)",
+    "'message for message': a forwarded reply may reach the client at most as many times as the upstream sent it (an upstream duplicate is "
+    "passed on; a copy the proxy makes up itself for a query that reuses an answered id does not answer that query)",
     "hook-level correspondence is checked on ids only (flows are keyed by id; with duplicate ids a flow legitimately carries the latest query)",
 ]
 LEVEL_TEXT = (
@@ -66,6 +73,7 @@ ADDON_ACTIONS = ["pass"] * 6 + ["respond", "error", "delay"]
 GARBAGE = [b"Not a DNS packet", b"\x00\x01\x01\x00\x00\x01\x00\x00\x00\x00\x00\x00", b"\x00" * 11, b"\x12\x34\x01\x00\x00\x01\x00\x00\x00\x00\x00\x00\x05abc"]
 UNKNOWN_ID = "upstream-reply-with-id-of-no-delivered-query"
 SAME_SEGMENT = "valid-messages-before-malformed-one-in-same-segment-dropped"
+STALE_REPLAY = "stored-response-replayed-for-query-reusing-an-answered-id"
 
 
 def qname(k):
@@ -370,6 +378,7 @@ def run_case(ctx, opts):
            "early": early, "malformed": first_malformed, "hooks": [(h["step"], h["name"], h["req_id"], h["qname"], h["resp_id"]) for h in hooklog][:40],
            "exceptions": [e[:2] for e in d.exceptions]}
     up_sent_sem = [R.semantic(R.decode(m)) for p in ups for m in p.sent]
+    up_unconsumed = list(up_sent_sem)
     # does the workload reach "an unsolicited reply completes in the same TCP segment as an earlier solicited one"?
     if transport == "tcp":
         for p in ups:
@@ -473,7 +482,15 @@ def run_case(ctx, opts):
             if sem not in up_sent_sem:
                 outcomes.add("forwarded-differs")
                 ctx.violation("forwarded-reply-is-not-an-upstream-message", {**wit, "reply": m[:300]})
+            elif sem not in up_unconsumed:
+                # message for message: the upstream sent this reply fewer times than the client received it, i.e. the proxy itself
+                # produced the extra copy (and the query that triggered it was not forwarded)
+                outcomes.add("forwarded-extra-copy")
+                reused = sum(1 for q in queries_before(s) if q["id"] == dec["id"]) >= 2
+                ctx.violation("reply-sent-more-often-than-the-upstream-sent-it", {**wit, "reply": m[:300], "step": s, "reply_id": dec["id"]},
+                              STALE_REPLAY if reused else None)
             else:
+                up_unconsumed.remove(sem)
                 outcomes.add("forwarded")
         elif len(rd) == 4 and rd[:3] == b"\x7f\x00\x00":
             outcomes.add("addon-response")
@@ -558,11 +575,123 @@ def run_case(ctx, opts):
     return sig, nontrivial, sample
 
 
+BULK_SEGS = [("chunk", 65535), "whole", ("chunk", 65536), ("chunk", 65537), ("chunk", 65538), ("chunk", 16384), ("chunk", 997), "random"]
+
+
+def txt_rdata(n, fill):
+    """TXT RDATA of exactly n octets (<character-string>s of up to 255 octets)."""
+    out = bytearray()
+    while n - len(out) >= 256:
+        out += b"\xff" + fill * 255
+    rest = n - len(out)
+    if rest:
+        out += bytes([rest - 1]) + fill * (rest - 1)
+    return bytes(out)
+
+
+def run_bulk_case(ctx, opts, index):
+    """Heavy pipelining over TCP: well-formed traffic only, so every query must be extracted, forwarded and answered, identically
+    for every segmentation, and nothing may be closed."""
+    r = ctx.rng
+    n = r.randint(100, 300)
+    ids = r.sample(range(65536), n)
+    cseg = BULK_SEGS[(index + ctx.worker) % len(BULK_SEGS)]
+    useg = BULK_SEGS[(index // 2 + 3 * ctx.worker + r.randrange(2)) % len(BULK_SEGS)]
+    queries, replies = [], {}
+    big_q = r.randrange(n) if r.random() < 0.5 else None
+    big_r = set(r.sample(range(n), r.choice([1, 2])))
+    for k, mid in enumerate(ids):
+        name = qname(k)
+        pad = 65535 - 12 - (len(R.name_wire(name)) + 4) - 11 - 4 if k == big_q else r.choice([300, 400, 700, 1200])
+        opt = {"name": (), "type": R.OPT, "class": 4096, "ttl": 0, "rdata": b"\x00\x0c" + pad.to_bytes(2, "big") + bytes(pad)}  # EDNS padding
+        q = {"id": mid, "qr": False, "rd": True, "questions": [{"name": name, "type": 16, "class": 1}], "answers": [], "authorities": [], "additionals": [opt]}
+        qw = R.encode(q)
+        base = 12 + len(R.name_wire(name)) + 4 + len(R.name_wire(name)) + 10
+        rdlen = 65535 - base if k in big_r else r.choice([40, 200, 600, 900])
+        rep_ = {"id": mid, "qr": True, "rd": True, "ra": True, "questions": q["questions"],
+                "answers": [{"name": name, "type": 16, "class": 1, "ttl": 60, "rdata": txt_rdata(rdlen, b"%c" % (97 + k % 26))}], "authorities": [], "additionals": []}
+        rw = R.encode(rep_)
+        assert len(qw) <= 65535 and len(rw) <= 65535, (len(qw), len(rw))
+        queries.append((mid, qw))
+        replies[mid] = rw
+    stream = b"".join(G.frame(qw, "tcp") for _, qw in queries)
+    up_total = sum(len(x) + 2 for x in replies.values())
+    seen = []
+
+    def responder(_k, m, peer):
+        seen.append(int.from_bytes(m[:2], "big"))
+        if len(seen) < n:
+            return []
+        return [replies[mid] for mid in seen if mid in replies]  # everything at once: one chunk, cut into ``useg`` segments
+
+    ups = []
+
+    def server_factory(drv, conn):
+        p = G.DnsUpstream("tcp", responder, r, useg, coalesce=True)
+        ups.append(p)
+        return p
+
+    hook_ids = {"dns_request": [], "dns_response": [], "dns_error": []}
+
+    def policy(drv, hook):
+        req = getattr(hook.flow, "request", None)
+        hook_ids[hook.name].append(req.id if req is not None else None)
+
+    d = G.make_driver("tcp", opts, r, server_factory=server_factory, schedule=r.choice(["random", "fifo"]), policy=policy, max_steps=40 * n + 4000)
+    if isinstance(cseg, tuple):
+        segs = [stream[i : i + cseg[1]] for i in range(0, len(stream), cseg[1])]
+    else:
+        segs = cut(stream, r, cseg)
+    d.attach_client_peer(sansio.ScriptPeer(segs))
+    d.start()
+    d.run()
+    if d.budget_exceeded:
+        d.teardown()
+        ctx.count("inconclusive_cases")
+        return None
+    closes = [x[2] for x in d.log if x[0] == "cmd" and x[2].startswith("CloseConnection")]
+    down, status, rest = G.client_messages(d, "tcp")
+    d.teardown()
+    ctx.count("bulk.cases")
+    if max(len(x) for x in segs) >= 65535 or any(len(x) >= 65535 for p in ups for x in p.segments):
+        ctx.count("bulk.segment_ge_65535")
+    wit = {"kind": "bulk", "queries": n, "client_octets": len(stream), "upstream_octets": up_total, "client_seg": cseg, "upstream_seg": useg,
+           "largest_client_segment": max(len(x) for x in segs), "largest_upstream_segment": max([len(x) for p in ups for x in p.segments] or [0]),
+           "closes": closes, "exceptions": [e[:2] for e in d.exceptions], "dns_request_hooks": len(hook_ids["dns_request"]),
+           "dns_response_hooks": len(hook_ids["dns_response"]), "replies_to_client": len(down)}
+    bad = []
+    if closes:
+        bad.append("connection-closed-on-well-formed-traffic")
+    if hook_ids["dns_request"] != ids:
+        bad.append("client-extraction-differs")
+    if seen != ids:
+        bad.append("queries-forwarded-differ")
+    if status != "ok" or rest:
+        bad.append("client-bound-framing-broken")
+    got = {}
+    for m in down:
+        got.setdefault(int.from_bytes(m[:2], "big"), []).append(m)
+    ctx.count("bulk.replies_checked", len(down))
+    wrong = [mid for mid in ids if len(got.get(mid, [])) != 1 or R.semantic(R.decode(got[mid][0])) != R.semantic(R.decode(replies[mid]))]
+    if wrong or set(got) - set(ids):
+        bad.append("replies-differ")
+        wit["first_wrong_ids"] = wrong[:5]
+    if hook_ids["dns_error"] or d.exceptions:
+        bad.append("error-on-well-formed-traffic")
+    for b in bad:
+        ctx.violation("bulk:" + b, wit)
+    sig = ("bulk", str(cseg), str(useg), big_q is not None, tuple(bad))
+    return sig, True, {k: wit[k] for k in ("kind", "queries", "client_octets", "upstream_octets", "client_seg", "upstream_seg", "replies_to_client")}
+
+
 def run(ctx):
     tctx, _ = sansio.addon_context()
     opts = tctx.options
     for i in ctx.cases():
-        res = ctx.guard(run_case, ctx, opts, what="c27 case")
+        if i < 4 or i % 3000 == 0:
+            res = ctx.guard(run_bulk_case, ctx, opts, i, what="c27 bulk case")
+        else:
+            res = ctx.guard(run_case, ctx, opts, what="c27 case")
         if res is None:
             ctx.case(("aborted",), False)
             continue
